@@ -403,6 +403,35 @@ func ubjsonMarkerEvents(p *core.Prog, r *core.Result) {
 		default:
 			continue // containers, nil, noop: AnyType
 		}
+		if s.typ == "stFixed" && ev == "" {
+			pos := p.Pos(sfv.Pos())
+			if marker == "noopMarker" {
+				// the no-op carries no value: stepValue must consume it itself (it has no live arm as a pushed state)
+				sv := findFuncDecl(up, "stepValue")
+				handled := false
+				if sv != nil {
+					vrows, _, _ := switchRows(info, sv, "stateStep")
+					for _, row := range vrows {
+						for _, nm := range row.names {
+							if nm == s.step {
+								handled = true
+							}
+						}
+					}
+				}
+				if handled {
+					r.Ok(".UBJSON-LIVE", pos, "ubjson noopMarker: consumed by stepValue without an event")
+				} else {
+					r.Fail(".UBJSON-LIVE", "ubjson.stepValue|"+marker, pos, fmt.Sprintf("ubjson stepValue has no arm for %s (the state of the no-op marker): the no-op is pushed as a value state whose only handler (stepFixedValue) reports nothing for it - a valid no-op is rejected or stalls the machine", s.step), "")
+				}
+			} else {
+				r.Fail(".UBJSON-LIVE", "ubjson.stepFixedValue|"+marker, pos, fmt.Sprintf("ubjson marker %s starts state (%s,%s) but the arm of %s in stepFixedValue reports no event: every value with this marker that reaches the state machine as a pushed state (typed container elements) is rejected or lost", marker, s.typ, s.step, s.step), "")
+			}
+			continue
+		}
+		if s.typ == "stFixed" {
+			r.Ok(".UBJSON-LIVE", p.Pos(sfv.Pos()), fmt.Sprintf("ubjson %s: state (%s,%s) has an arm in stepFixedValue that reports %s", marker, s.typ, s.step, ev))
+		}
 		if ev == "OnNil" || ev == "" {
 			continue
 		}
